@@ -494,6 +494,16 @@ class ImplRunner:
             out = 'fc %d %d %d %d %d %d' % (p.flow_status, p.blocksize, p.stmin, t.timeout, p.can_dl, p.rx_dl)
         self.plain(line, out)
 
+    def do_specseg(self, op):
+        """Python reference segmentation (harness/ref.py) vs the Lean `Spec.segment` (driver side)"""
+        import ref
+        data = bytes(op['data'])
+        pre = bytes(op.get('prefix', b''))
+        line = 'specseg %d %s %s %s %s' % (op['txdl'], 'N' if op.get('minlen') is None else op['minlen'],
+                                          'N' if op.get('padding') is None else op['padding'], hexs(pre), hexs(data))
+        frames = ref.segment(data, txdl=op['txdl'], minlen=op.get('minlen'), padding=op.get('padding'), prefix=pre)
+        self.plain(line, ' '.join(hexs(f) for f in frames))
+
     def run(self, scenario):
         for op in scenario:
             getattr(self, 'do_' + op['op'])(op)
